@@ -642,7 +642,10 @@ class cst(exp):
     @_checkarg_numeric
     def __lshift__(self, n):
         if n._is_cst:
-            return cst(self.value << n.value, self.size)
+            # the shift amount is an unsigned quantity:
+            if n.v >= self.size:
+                return cst(0, self.size)
+            return cst(self.value << n.v, self.size)
         else:
             return exp.__lshift__(self, n)
 
@@ -650,7 +653,7 @@ class cst(exp):
     def __rshift__(self, n):
         self.sf = False  # rshift implements logical right shift
         if n._is_cst:
-            return cst(self.value >> n.value, self.size)
+            return cst(self.value >> n.v, self.size)
         else:
             return exp.__rshift__(self, n)
 
@@ -658,7 +661,7 @@ class cst(exp):
     def __floordiv__(self, n):
         self.sf = True  # floordiv implements arithmetic right shift
         if n._is_cst:
-            return cst(self.value >> n.value, self.size)
+            return cst(self.value >> n.v, self.size)
         else:
             return exp.__floordiv__(self, n)
 
@@ -2173,6 +2176,9 @@ def eqn2_helpers(e, bitslice=False, widening=False):
             c[0 : e.size] = cst(0, e.size)
             c[i1 : i2 + 1] = e.l[i1 : i2 + 1]
             return c.simplify()
+        # if e:= (l [>> <<] r) with r >= size then e:= 0
+        elif e.op.symbol in (OP_LSL, OP_LSR) and e.r.v >= e.l.size:
+            return cst(0, e.size)
         elif bitslice and e.op.symbol in (OP_AND, OP_OR, OP_XOR):
             return composer(
                 [e.op(e.l[i : i + 1], e.r[i : i + 1]) for i in range(e.size)]
